@@ -52,7 +52,7 @@ def run(ctx):
     var = vf.build_variant("hk")
     exe = vf.build_hx(var, "framing.c")
     s = ctx.seed
-    jobs = [("helpers", [s, 0])]
+    jobs = [("helpers", [s, 0]), ("huge", [s + 5, 0])]
     if tier == "quick":
         jobs += [("grid", [s, 2000]), ("structured", [s + 1, 150000]), ("fuzz", [s + 2, 100000])]
     else:
